@@ -541,7 +541,7 @@ func init() {
 			if th {
 				return 6
 			}
-			return 4
+			return 5
 		}}
 }
 
